@@ -540,7 +540,16 @@ fn eval_in(case: &CliCase, stats: &mut Counters, bin: &Path, dir: &Path) -> Opti
         }
         CliCase::Systematic { alist } => {
             let f = dir.join("in.alist");
-            std::fs::write(&f, alist).ok()?;
+            // the same matrix in either form of the format: padded, or without padding zeros
+            // (where an all-zero column is a blank line: seeded change C20-r7-3 drops blank lines)
+            let as_written = match (hash_str(alist) % 3, parse_untrusted(alist)) {
+                (0, Ok(h0)) => {
+                    stats.inc("input alist in the unpadded form");
+                    crate::c08::own_unpadded(&BitMat::from_sparse(&h0))
+                }
+                _ => alist.clone(),
+            };
+            std::fs::write(&f, &as_written).ok()?;
             let out = run_prog(bin, &sv(&["systematic", "in.alist"]), dir, 120);
             let h = SparseMatrix::from_alist(alist).ok()?;
             let m = BitMat::from_sparse(&h);
@@ -1082,6 +1091,28 @@ fn check_ber_outputs(alist: &str, args: &[String], dir: &Path, out: &ProcOut, st
         Some(p) => n_cw / p.len() * p.iter().filter(|&&b| b).count(),
     };
     let refrows: Option<Vec<Vec<Vec<String>>>> = out.stderr.lines().find_map(|l| l.strip_prefix("REFSTATS ")).and_then(|j| serde_json::from_str(j).ok());
+    // with an outer code and both files: the same frames are behind line i of either file, and
+    // the frames the outer code corrects (at most `bch` bit errors each, at least one) are exactly
+    // those that are LDPC frame errors but not outer-code frame errors (seeded change C20-r7-1
+    // counts their bit errors in the outer-code column too)
+    if bch > 0 && arg_val(args, "--output-file-ldpc").is_some() {
+        if let (Ok(a), Ok(b)) = (std::fs::read_to_string(dir.join("out.txt")), std::fs::read_to_string(dir.join("out_ldpc.txt"))) {
+            for (i, (ra, rb)) in parse_result_lines(&a).iter().zip(parse_result_lines(&b).iter()).enumerate() {
+                let num = |r: &Vec<String>, c: usize| r.get(c).and_then(|x| x.parse::<u64>().ok());
+                if let (Some(fa), Some(fb), Some(bea), Some(beb), Some(fea), Some(feb)) = (num(ra, 1), num(rb, 1), num(ra, 2), num(rb, 2), num(ra, 3), num(rb, 3)) {
+                    let corrected = feb.saturating_sub(fea);
+                    let diff = beb.saturating_sub(bea);
+                    if fa != fb || fea > feb || bea > beb || diff < corrected || diff > corrected * bch {
+                        return Some(Violation::new(
+                            "ber-output",
+                            format!("line {}: the two result files disagree: LDPC+BCH (frames {}, bit errors {}, frame errors {}) vs LDPC only (frames {}, bit errors {}, frame errors {}) with an outer code correcting up to {} bit errors: the {} corrected frames must account for between {} and {} bit errors, not {}", i, fa, bea, fea, fb, beb, feb, bch, corrected, corrected, corrected * bch, diff),
+                        ));
+                    }
+                    stats.inc("ber: outer-code and LDPC-only lines cross-checked");
+                }
+            }
+        }
+    }
     let mut files = vec![("out.txt", false)];
     if bch > 0 && arg_val(args, "--output-file-ldpc").is_some() {
         files.push(("out_ldpc.txt", true));
@@ -1262,6 +1293,12 @@ fn gen_sampled(seed: u64, i: u64) -> CliCase {
                     }
                 }
             }
+            if c > r && g.chance(1, 3) {
+                let z = g.below(c as u64) as usize;
+                for i in 0..r {
+                    m.a[i][z] = 0;
+                }
+            }
             CliCase::Systematic { alist: m.to_alist() }
         }
         3 | 4 => {
@@ -1278,7 +1315,11 @@ fn gen_sampled(seed: u64, i: u64) -> CliCase {
                     k = n - r;
                 }
             }
-            let tail = if g.chance(1, 2) { Tail::Staircase } else { Tail::Invertible };
+            let tail = match g.below(5) {
+                0 | 1 => Tail::Staircase,
+                2 => Tail::GappedStaircase,
+                _ => Tail::Invertible,
+            };
             let m = random_code(&mut g, k, r, tail, 1);
             let n = k + r;
             let punct = if g.chance(1, 10) {
@@ -1388,7 +1429,11 @@ fn gen_ber(g: &mut Stream) -> CliCase {
     let n = *g.pick(&[6usize, 8, 9, 12, 12, 15, 18]);
     let r = 2 + g.below((n as u64 / 2).min(6)) as usize;
     let k = n - r;
-    let tail = if g.chance(1, 2) { Tail::Staircase } else { Tail::Invertible };
+    let tail = match g.below(5) {
+        0 | 1 => Tail::Staircase,
+        2 => Tail::GappedStaircase,
+        _ => Tail::Invertible,
+    };
     let m = random_code(g, k, r, tail, 2);
     let min = -2.0 + g.below(5) as f64 * 0.5;
     let step = *g.pick(&[0.5, 1.0, 0.3, 0.25]);
